@@ -753,23 +753,10 @@ def _get_lambda_in_stream(
     return lda, saw_new_line
 
 
-def _code_names_and_constants(code) -> Tuple[List[str], List[str]]:
-    """The names a code object (and the code objects nested in it) refers to and the constants
-    it uses. Names are reported the same way whether they are looked up as globals or as
-    variables of an enclosing function, so code compiled in and out of its context agrees."""
-    names = set(code.co_names) | set(code.co_freevars) | set(code.co_cellvars)
-    names |= set(code.co_varnames)
-    constants = []
-    for c in code.co_consts:
-        if hasattr(c, "co_code"):
-            sub_names, sub_constants = _code_names_and_constants(c)
-            names |= set(sub_names)
-            constants += sub_constants
-        elif c is not None:
-            constants.append(repr(c))
-
-    # Inside a class body `__x` is compiled as `_Class__x`. The class is one of the scopes the
-    # code was defined in, when python tells us (the class name may itself contain `__`).
+def _class_private_unmangler(code) -> Callable[[str], str]:
+    """Inside a class body `__x` is compiled as `_Class__x`: returns the function that gives
+    such a name back as it is written. The class is one of the scopes the code was defined
+    in, when python tells us (the class name may itself contain `__`)."""
     scopes = getattr(code, "co_qualname", "").split(".")
     prefixes = ["_" + scope.lstrip("_") for scope in scopes if scope.lstrip("_").isidentifier()]
 
@@ -779,10 +766,30 @@ def _code_names_and_constants(code) -> Tuple[List[str], List[str]]:
                 return n[len(prefix) :]
         return n[n.index("__") :] if n.startswith("_") and not n.startswith("__") and "__" in n else n
 
+    return plain
+
+
+def _code_names_and_constants(
+    code, plain: Callable[[str], str] = lambda n: n
+) -> Tuple[List[str], List[str]]:
+    """The names a code object (and the code objects nested in it) refers to and the constants
+    it uses. Names are reported the same way whether they are looked up as globals or as
+    variables of an enclosing function, so code compiled in and out of its context agrees."""
+    names = set(code.co_names) | set(code.co_freevars) | set(code.co_cellvars)
+    names |= set(code.co_varnames)
+    constants = []
+    for c in code.co_consts:
+        if hasattr(c, "co_code"):
+            sub_names, sub_constants = _code_names_and_constants(c, plain)
+            names |= set(sub_names)
+            constants += sub_constants
+        elif c is not None:
+            constants.append(repr(c))
+
     return sorted({plain(n) for n in names}), sorted(constants)
 
 
-def _code_instructions(code) -> List[Any]:
+def _code_instructions(code, plain: Callable[[str], str] = lambda n: n) -> List[Any]:
     """The instructions of a code object and of the code objects nested in it, in order, with
     the names and constants they refer to. How a call is set up is left out: the compiler
     picks another instruction sequence for `mod.f(x)` when it knows that `mod` was imported,
@@ -799,19 +806,24 @@ def _code_instructions(code) -> List[Any]:
         if ins.opcode in jumps:
             result.append((name,))
         elif hasattr(ins.argval, "co_code"):
-            result.append((name, _code_instructions(ins.argval)))
+            result.append((name, _code_instructions(ins.argval, plain)))
+        elif isinstance(ins.argval, str):
+            result.append((name, repr(plain(ins.argval))))
         else:
             result.append((name, repr(ins.argval)))
     return result
 
 
-def _code_symbols(code) -> List[Any]:
+def _code_symbols(code, plain: Callable[[str], str] = lambda n: n) -> List[Any]:
     """How a code object (and the code objects nested in it) resolved its variables: as
     locals, as cells handed to nested functions or as variables of an enclosing function."""
-    result: List[Any] = [code.co_varnames, code.co_cellvars, code.co_freevars]
+    result: List[Any] = [
+        [plain(n) for n in names]
+        for names in (code.co_varnames, code.co_cellvars, code.co_freevars)
+    ]
     for c in code.co_consts:
         if hasattr(c, "co_code"):
-            result.append(_code_symbols(c))
+            result.append(_code_symbols(c, plain))
     return result
 
 
@@ -830,8 +842,8 @@ def _compile_lambda_like(lda: ast.Lambda, code) -> Optional[Any]:
 
 def _lambda_can_be(lda: ast.Lambda, ast_source: Callable) -> bool:
     """Could the lambda found in the source be the callable we were given? They must refer to
-    the same names, use the same constants and - unless class-private names make the byte code
-    depend on the class it was written in - have the same instructions."""
+    the same names, use the same constants, resolve their variables the same way and have
+    the same instructions."""
     code = getattr(ast_source, "__code__", None)
     if code is None:
         return True
@@ -841,16 +853,16 @@ def _lambda_can_be(lda: ast.Lambda, ast_source: Callable) -> bool:
         return True
     if found is None:
         return True
-    if _code_names_and_constants(found) != _code_names_and_constants(code):
+    # Class-private names are compiled differently inside their class: compare them as written.
+    plain = _class_private_unmangler(code)
+    if _code_names_and_constants(found, plain) != _code_names_and_constants(code, plain):
         return False
-    names, _ = _code_names_and_constants(code)
-    if any(n.startswith("__") and not n.endswith("__") for n in names):
-        return True
-    # The byte code can only be compared if both were compiled with the same view of the
-    # surrounding scopes (we only know the variables the callable itself takes from them).
-    if _code_symbols(found) != _code_symbols(code):
-        return True
-    return _code_instructions(found) == _code_instructions(code)
+    # Both were compiled with the same view of the surrounding scopes (the variables the
+    # callable takes from them): a lambda that resolves its variables another way is another
+    # lambda.
+    if _code_symbols(found, plain) != _code_symbols(code, plain):
+        return False
+    return _code_instructions(found, plain) == _code_instructions(code, plain)
 
 
 def _parse_source_for_lambda(
